@@ -151,6 +151,8 @@ def aliasPairs (w : World) : List (Nat × Nat × Nat × Nat) :=
 structure IOState where
   w : World := { heap := [], agents := [], rules := [] }
   optByRef : Bool := false
+  /-- saved checkpoints (by-value snapshots of an agent's view), used by `Model/HeapCkpt.lean` -/
+  blobs : List (List (List Nat)) := []
 
 def parseSpec (s : String) : Option AttrSpec :=
   -- `<kind>[:c]`, kinds: net opt tgt<src> list reg ten nda oth cal imm
